@@ -65,7 +65,6 @@ def collect(t, rnd):
     f_level = _get("cm_colors.core.contrast", "get_contrast_level")
     f_wcag = _get("cm_colors.core.contrast", "get_wcag_level")
     from cm_colors import ColorPair, make_readable_bulk
-    from cm_colors.core.colors import Color
     missing = [n for n, f in (("calculate_relative_luminance", f_lum), ("calculate_contrast_ratio", f_ratio),
                               ("get_contrast_level", f_level), ("get_wcag_level", f_wcag)) if f is None]
     obs = []
@@ -189,21 +188,6 @@ def collect(t, rnd):
             except Exception:
                 pass
             obs.append(dict(e, readable=str(p.is_readable)))
-        elif idx % 3 == 1 and f_wcag:
-            # the pair's public attributes are replaced (another background - a theme switch -, another text, the other size):
-            # the label is that of the pair AS IT NOW IS (its own text.rgb, bg.rgb, large)
-            a2, b2 = pl[(idx * 7 + 3) % len(pl)]
-            try:
-                if idx % 2:
-                    p.bg = Color(b2)
-                else:
-                    p.text = Color(a2)
-                if idx % 4 >= 2:
-                    p.large = not p.large
-                na, nb, nl = tuple(p.text.rgb), tuple(p.bg.rgb), bool(p.large)
-                obs.append({"k": "pair", "a": list(na), "b": list(nb), "large": nl, "lvl": str(f_wcag(na, nb, nl)), "readable": str(p.is_readable)})
-            except Exception:
-                pass
     # ---- bulk status strings: label of the returned colour
     bl = [(a, b, bool(i & 1)) for i, (a, b) in enumerate(pl[: (300 if t == "quick" else 2500)])]
     bl += [(a, b, bool(i & 1)) for i, (a, b) in enumerate(zo[::3])]
